@@ -155,6 +155,36 @@ pub fn run(ctx: &Ctx) -> Result<Ev, String> {
             }
         }
     }
+    // names tested by .ifdef / .ifndef: whatever the test answers for a label, an .equ, a .set variable
+    // or a register alias, it answers the same for every letter case of the reference
+    {
+        let defs: [(&str, &str); 4] = [("label", "Mixed_Name: nop"), ("equ", ".equ Mixed_Name = 3"), ("set", ".set Mixed_Name = 3"), ("def", ".def Mixed_Name = r20")];
+        for (kind, def) in defs {
+            for directive in [".ifdef", ".ifndef"] {
+                for (place, before) in [("definition-first", true), ("test-first", false)] {
+                    let prog = |spelling: &str| -> String {
+                        let test = format!("{} {}\n.dw 0x1111\n.else\n.dw 0x2222\n.endif\n", directive, spelling);
+                        if before {
+                            format!("{}\n{}nop\n", def, test)
+                        } else {
+                            format!("{}{}\nnop\n", test, def)
+                        }
+                    };
+                    let a = prog("mixed_name");
+                    for spelling in ["Mixed_Name", "MIXED_NAME", "mIXED_nAME"] {
+                        let b = prog(spelling);
+                        total.eval();
+                        total.class("ifdef-name-case-leg");
+                        total.nt(fp(&b));
+                        let chk = Check::Same { a: a.clone(), b: b.clone(), messages: true, allow_both_fail: true };
+                        if let Err(why) = chk.eval() {
+                            total.violation(Violation { sig: format!("c14:ifdef-name-case:{}:{}:output-changed", kind, place), what: format!("`{}` against the lower-case reference: {}", b.replace('\n', " | "), why), replay: chk.to_json() });
+                        }
+                    }
+                }
+            }
+        }
+    }
     if total.has_violation() {
         return Ok(total);
     }
@@ -171,5 +201,5 @@ pub fn run(ctx: &Ctx) -> Result<Ev, String> {
 }
 
 pub fn rule() -> String {
-    "proptest: a valid program from the union of the layout (C02), branch-placement (C03, incl. pc-relative operands), expression (C05), data (C06), conditional (C08), macro (C09) and symbol (C10) generators × two independently generated styles; a style switches each of nine dimensions on or off (trailing ; // /* */ comments with hostile text, inserted blank and comment-only lines, runs of spaces/tabs at the permitted positions, LF/CRLF per line, letter case of mnemonics, registers, function names, symbol references, radix and zero padding of each literal) and draws per-token decisions from a seeded stream. Radix leg: values around 2^31, 2^32, 2^62..2^65, 2^70 and small ones, written as 0x / 0X-digits / $ / zero-padded hex, binary and octal in five contexts, against the decimal spelling. Oracle: both renderings give exactly the canonical rendering's result (code, eeprom, sizes, ram_filling, message texts) or fail like it. Non-trivial = the two styles together use ≥3 dimensions, at least one token-level (case or radix), and the two texts differ; distinct = distinct pair of texts".into()
+    "proptest: a valid program from the union of the layout (C02), branch-placement (C03, incl. pc-relative operands), expression (C05), data (C06), conditional (C08), macro (C09) and symbol (C10) generators × two independently generated styles; a style switches each of nine dimensions on or off (trailing ; // /* */ comments with hostile text, inserted blank and comment-only lines, runs of spaces/tabs at the permitted positions, LF/CRLF per line, letter case of mnemonics, registers, function names, symbol references, radix and zero padding of each literal) and draws per-token decisions from a seeded stream. Radix leg: values around 2^31, 2^32, 2^62..2^65, 2^70 and small ones, written as 0x / 0X-digits / $ / zero-padded hex, binary and octal in five contexts, against the decimal spelling; names of labels, .equ, .set and .def tested by .ifdef/.ifndef in four letter cases. Oracle: both renderings give exactly the canonical rendering's result (code, eeprom, sizes, ram_filling, message texts) or fail like it. Non-trivial = the two styles together use ≥3 dimensions, at least one token-level (case or radix), and the two texts differ; distinct = distinct pair of texts".into()
 }
